@@ -253,6 +253,38 @@ func runPattern(ctx *core.Ctx, bin string, pi int, p pattern, spin bool) {
 		replay["first_missing"] = first
 		ctx.Violation("acked-not-in-file", fmt.Sprintf("%d acknowledged writes (first %s) are not in appendonly.aof after kill -9 (pattern %q, %d connections)", missing, first, p.env, nconn), replay)
 	}
+	if missing == 0 && pi%3 == 0 {
+		// "a crash loses only unacknowledged commands" includes the next start: loading the log
+		// (tens of kilobytes here, possibly with a torn last command) must not cut acknowledged ones
+		s2, err := s.Restart()
+		if err != nil {
+			ctx.Violation("restart-fails-after-kill", "the server does not start on the log left by kill -9: "+err.Error(), replay)
+			return
+		}
+		s2.Kill9()
+		if entries2, _, _, err := aoflog.ReadFile(s.AOFPath()); err == nil {
+			still := map[string]bool{}
+			for _, e := range entries2 {
+				for _, a := range e.Args {
+					if strings.HasPrefix(a, "t") {
+						still[a] = true
+					}
+				}
+			}
+			cut := 0
+			acked.Range(func(k, _ any) bool {
+				if !still[k.(string)] {
+					cut++
+					first = k.(string)
+				}
+				return true
+			})
+			ctx.Count("restarts_after_kill9", 1)
+			if cut > 0 {
+				ctx.Violation("acked-cut-by-restart", fmt.Sprintf("%d acknowledged writes (e.g. %s) were in appendonly.aof after kill -9 (%d entries) and are gone after the next start (%d entries)", cut, first, len(entries), len(entries2)), replay)
+			}
+		}
+	}
 	if pi < 2 {
 		ctx.Sample(map[string]any{"pattern": p.env, "connections": nconn, "sends_checked": st.sends, "sends_of_logged_commands": st.sendsWrites, "overtaken": st.overtaken, "acked": nAcked.Load(), "log_entries": len(entries)})
 	}
@@ -523,6 +555,128 @@ func ackThenFile(ctx *core.Ctx, bin string, round int) {
 	}
 }
 
+// ackDuringRewrite: the same immediate oracle while AOFSHRINK is parked between
+// two of its scan batches (gate points of the verif build). A write acknowledged
+// during the rewrite must be in appendonly.aof at that moment - the rewrite's
+// in-memory list of concurrent writes is no substitute, it dies with the
+// process - and still be in the file that replaces it.
+func ackDuringRewrite(ctx *core.Ctx, bin string) {
+	env := "T38_VERIF_POINTS=shrink.betweenKeyBatches=gate;shrink.betweenIdBatches=gate;shrink.beforeFinal=gate;shrink.afterRemoveBak=yield:1"
+	s, err := srv.Start(srv.Opts{Bin: bin, Env: []string{env}})
+	if err != nil {
+		ctx.Inconclusive("ack during rewrite: " + err.Error())
+		return
+	}
+	defer s.Kill9()
+	c, err := respc.Dial(s.Addr(), 5*time.Second)
+	if err != nil {
+		ctx.Inconclusive("ack during rewrite: " + err.Error())
+		return
+	}
+	defer c.Close()
+	c.Timeout = 20 * time.Second
+	for k := 0; k < 20; k++ {
+		for i := 0; i < 3; i++ {
+			c.Do("SET", fmt.Sprintf("rw%02d", k), "o"+strconv.Itoa(i), "FIELD", "n", "1", "POINT", strconv.Itoa(k), strconv.Itoa(i))
+		}
+	}
+	if rp, err := c.Do("AOFSHRINK"); err != nil || rp.IsErr() {
+		ctx.Inconclusive("ack during rewrite: AOFSHRINK refused")
+		return
+	}
+	parked := func() (string, bool, error) {
+		r, err := c.Do("VERIF", "STATUS")
+		if err != nil || r.IsErr() {
+			return "", false, fmt.Errorf("VERIF STATUS: %v %s", err, r.String())
+		}
+		done := false
+		at := ""
+		for _, m := range regexp.MustCompile(`point (\S+) arrivals=(\d+) parked=(\d+)`).FindAllStringSubmatch(r.Str, -1) {
+			if m[1] == "shrink.afterRemoveBak" && m[2] != "0" {
+				done = true
+			}
+			if m[3] != "0" {
+				at = m[1]
+			}
+		}
+		return at, done, nil
+	}
+	inFile := func(tok string) bool {
+		b, err := os.ReadFile(s.AOFPath())
+		return err == nil && strings.Contains(string(b), tok)
+	}
+	var toks []string
+	n := 0
+	deadline := time.Now().Add(60 * time.Second)
+	for time.Now().Before(deadline) {
+		at, done, err := parked()
+		if err != nil {
+			ctx.Inconclusive("ack during rewrite: " + err.Error())
+			return
+		}
+		if done {
+			break
+		}
+		if at == "" {
+			time.Sleep(time.Millisecond)
+			continue
+		}
+		if len(toks) < 40 {
+			n++
+			tok := fmt.Sprintf("RWT%dQ", n)
+			key := fmt.Sprintf("rw%02d", (n*7)%20)
+			var cmd []string
+			switch n % 5 {
+			case 0:
+				cmd = []string{"SET", key, "o1", "STRING", tok}
+			case 1:
+				cmd = []string{"FSET", key, "o0", "tokf", tok}
+			case 2:
+				cmd = []string{"JSET", key, "doc", "t", tok}
+			case 3:
+				cmd = []string{"EVAL", `return tile38.call('set', KEYS[1], 'o2', 'string', ARGV[1])`, "1", key, tok}
+			default:
+				cmd = []string{"SET", "rwnew" + strconv.Itoa(n), "x", "STRING", tok}
+			}
+			rp, err := c.Do(cmd...)
+			if err != nil {
+				ctx.Inconclusive("ack during rewrite: " + err.Error())
+				return
+			}
+			if !rp.IsErr() {
+				ctx.Eval(1)
+				ctx.Count("acks_while_rewrite_parked", 1)
+				ctx.Distinct("ack-during-rewrite|" + strings.ToLower(cmd[0]) + "|" + at)
+				if !inFile(tok) {
+					ctx.Violation("acked-not-in-file:during-rewrite", fmt.Sprintf("%q was acknowledged while AOFSHRINK was parked at %s, but its token is not in appendonly.aof", cmd, at), map[string]any{"command": cmd, "parked_at": at})
+					return
+				}
+				toks = append(toks, tok)
+			}
+		}
+		c.Do("VERIF", "RELEASE", at, "1")
+	}
+	if _, done, _ := parked(); !done {
+		ctx.Inconclusive("ack during rewrite: the rewrite did not finish")
+		return
+	}
+	for i := 0; i < 400; i++ { // the in-progress flag drops right after the last point
+		if rp, err := c.Do("INFO", "persistence"); err == nil && !strings.Contains(rp.String(), "aof_rewrite_in_progress:1") {
+			break
+		}
+		time.Sleep(5 * time.Millisecond)
+	}
+	for _, tok := range toks {
+		if !inFile(tok) {
+			ctx.Violation("acked-not-in-file:after-rewrite", fmt.Sprintf("token %s, acknowledged while AOFSHRINK was running, is not in the rewritten appendonly.aof", tok), nil)
+			return
+		}
+	}
+	if len(toks) == 0 {
+		ctx.Inconclusive("ack during rewrite: no write was acknowledged while the rewrite was parked")
+	}
+}
+
 // Run is the C08 check.
 func Run(ctx *core.Ctx) {
 	ctx.Rule = "per perturbation pattern (sleep/yield actions at the four legal preemption points of the pre-write path: before the dirty-flag test, after the locked flush, after the flag clear, before the socket write): 2-16 connections issue unique-token writes (SET, JSET, EVAL; partly pipelined) against a verif build; the in-process monitor compares, at every socket write, the sender's last logged sequence number with the flushed sequence number; then writers keep going and the process is killed (-9) at a PRNG instant and every acknowledged token must be in appendonly.aof. non-trivial = a pattern run in which at least one reply of a logged command was sent after another goroutine had logged a later command (the interleaving in which a missing flush would show); distinct key = pattern"
@@ -547,4 +701,5 @@ func Run(ctx *core.Ctx) {
 	for i := 0; i < ctx.Pick(2, 12); i++ {
 		ackThenFile(ctx, bin, i)
 	}
+	ackDuringRewrite(ctx, bin)
 }
